@@ -83,28 +83,50 @@ var c12Templates = []string{
 	"{namespace a}\n/** @param x */\n{template .t}\n{$x}\n{/template}\n",
 	// 6: a loop over a longer list as the last output, and a longer for-range before it
 	"{namespace a}\n/** @param x */\n{template .t}\n{for $j in range(9)}{$j}{/for}{$x}{foreach $i in [1, 2, 3, 4, 5, 6, 7, 8, 9, 10]}{$i},{/foreach}\n{/template}\n",
+	// 7: a plural message as the last output (its cases end in text)
+	"{namespace a}\n/** @param x\n @param n */\n{template .t}\n{$x}{msg desc=\"d\"}{plural $n}{case 0}none{case 1}one {$x} item{default}{$n} items of <i>{$x}</i> here{/plural}{/msg}\n{/template}\n",
+	// 8: a plural message followed by further output
+	"{namespace a}\n/** @param x\n @param n */\n{template .t}\n{msg desc=\"d\"}{plural $n}{case 1}one{default}{$x} many{/plural}{/msg}{$x}\n{/template}\n",
 }
 
 // c12Bundle: a catalogue translating the message of template 2 (text and placeholder parts are
 // written by evalMsgParts).
-type c12Bundle struct{ id uint64 }
+type c12Bundle struct {
+	id     uint64
+	plural string // name of the plural variable when the message is a plural (templates 7, 8)
+}
 
 func (b c12Bundle) Locale() string { return "xx" }
 func (b c12Bundle) Message(id uint64) *soymsg.Message {
 	if id != b.id {
 		return nil
 	}
+	if b.plural != "" {
+		return &soymsg.Message{ID: id, Parts: []soymsg.Part{soymsg.PluralPart{VarName: b.plural, Cases: []soymsg.PluralCase{
+			{Spec: soymsg.PluralSpec{Type: soymsg.PluralSpecOne}, Parts: []soymsg.Part{soymsg.RawTextPart{Text: "un "}, soymsg.PlaceholderPart{Name: "X"}, soymsg.RawTextPart{Text: " seul"}}},
+			{Spec: soymsg.PluralSpec{Type: soymsg.PluralSpecOther}, Parts: []soymsg.Part{soymsg.RawTextPart{Text: "des "}, soymsg.PlaceholderPart{Name: "X"}, soymsg.RawTextPart{Text: " en nombre"}}},
+		}}}}
+	}
 	return &soymsg.Message{ID: id, Parts: []soymsg.Part{soymsg.RawTextPart{Text: "Salut "}, soymsg.PlaceholderPart{Name: "START_BOLD"},
 		soymsg.PlaceholderPart{Name: "X"}, soymsg.PlaceholderPart{Name: "END_BOLD"}, soymsg.RawTextPart{Text: " la"}}}
 }
-func (b c12Bundle) PluralCase(n int) int { return 0 }
+func (b c12Bundle) PluralCase(n int) int {
+	if n == 1 || b.plural == "" {
+		return 0
+	}
+	return 1
+}
 
-func c12MsgID(t *Tofu) uint64 {
+func c12MsgID(t *Tofu) (uint64, string) {
 	var id uint64
+	var plural string
 	var walk func(n ast.Node)
 	walk = func(n ast.Node) {
 		if m, ok := n.(*ast.MsgNode); ok {
 			id = m.ID
+		}
+		if pl, ok := n.(*ast.MsgPluralNode); ok {
+			plural = pl.VarName
 		}
 		if p, ok := n.(ast.ParentNode); ok {
 			for _, c := range p.Children() {
@@ -115,21 +137,22 @@ func c12MsgID(t *Tofu) uint64 {
 	for _, tp := range t.registry.Templates {
 		walk(tp.Node)
 	}
-	return id
+	return id, plural
 }
 
-var c12Data = []string{"<", "a<b>&c", "", "\"'"}
+var c12Data = []string{"<", "a<b>&c", "", "\"'", "&"}
 
 // H_fault: every failure point of every write, for template t and data d, under writer mode
 // (see faultWriter).
 func H_fault(t, d, mode int) {
 	tofu := verifMustCompile(c12Templates[t])
-	m := data.Map{"x": data.String(c12Data[d])}
+	m := data.Map{"x": data.String(c12Data[d]), "n": data.Int(len(c12Data[d]))}
 	var ref bytes.Buffer
 	rend := func() *Renderer {
 		r := tofu.NewRenderer("a.t")
-		if t == 2 && d >= 2 {
-			r = r.WithMessages(c12Bundle{c12MsgID(tofu)}) // translated message: parts written by evalMsgParts
+		if (t == 2 && d >= 2) || (t >= 7 && d != 2 && d != 4) {
+			id, plural := c12MsgID(tofu)
+			r = r.WithMessages(c12Bundle{id, plural}) // translated message: parts written by evalMsgParts
 		}
 		return r
 	}
